@@ -2,12 +2,12 @@ SPECIFICATION Spec
 CONSTANTS
   NSH = 2
   NW = 2
-  MaxRuns = 3
+  MaxRuns = 2
   Variant = "fixed"
   Kinds <- AllKinds
-  Forms <- QuickForms
+  Forms <- AllForms
   SubRuns <- Yes
-  Founds <- QuickFounds
+  Founds <- AllFounds
 INVARIANT TypeOK
 INVARIANT Recoverable
 PROPERTY DeleteGuard
